@@ -1151,8 +1151,11 @@ def _describe_local(f, name, stack):
                     parts.append(text(v))
                 else:
                     d = text(n.value)
+                    path = is_access_path(n.value)
                     for i in position(t, el) or []:
-                        d = 'part(%d, %s)' % (i, d)
+                        # (an element of a stored sequence is that element)
+                        d = '%s[%d]' % (d, i) if path else \
+                            'part(%d, %s)' % (i, d)
                     parts.append(d)
         elif isinstance(n, ast.AugAssign) and isinstance(n.target, ast.Name) \
                 and n.target.id == name:
@@ -1174,7 +1177,8 @@ def _describe_local(f, name, stack):
     if not parts:
         return 'unbound()'
     if len(parts) == 1:
-        return parts[0] if '(' in parts[0] else 'anyof(%s)' % parts[0]
+        return parts[0] if '(' in parts[0] or '[' in parts[0] \
+            else 'anyof(%s)' % parts[0]
     return 'anyof(%s)' % ', '.join(parts)
 
 
